@@ -355,6 +355,13 @@ impl<E, Ix: IndexType> Build for List<E, Ix> {
     ///
     /// **Panics** if the source node does not exist.<br>
     fn update_edge(&mut self, a: NodeIndex<Ix>, b: NodeIndex<Ix>, weight: E) -> EdgeIndex<Ix> {
+        if b.index() >= self.suc.len() {
+            panic!(
+                "{} is not a valid node index for a {} nodes adjacency list",
+                b.index(),
+                self.suc.len()
+            );
+        }
         let row = &mut self.suc[a.index()];
         for (i, info) in row.iter_mut().enumerate() {
             if info.suc == b {
